@@ -728,7 +728,7 @@ var engines = []string{"scorch-mem", "scorch-disk", "upsidedown", "scorch-mem", 
 func gen(f vh.Flags, r *vrand.R, emit func(In)) {
 	thorough := f.Tier == "thorough"
 	// 1. random trees to depth 4 over random corpora
-	nCorpora := f.N(52, 2400)
+	nCorpora := f.N(54, 2400)
 	for ci := 0; ci < nCorpora; ci++ {
 		engine := engines[ci%len(engines)]
 		nDocs := r.Range(5, 12)
@@ -1228,17 +1228,25 @@ func genWide(r *vrand.R, engine string) In {
 }
 
 // genMergeAppend: "merged, then appended" on on-disk scorch.  A few small batches on field w
-// (keyword, no term vectors) and the boolean field in which some words occur in exactly one
-// document are force-merged into one segment (scorch's 1-hit postings encoding is written by
-// merges only); then further batches, in which the same words are frequent, are indexed and
-// NOT merged.  The queries are conjunctions / boolean must lists / filter clauses over a word
-// that is rare in the merged segment and a common word, with matches in the later segments.
+// (keyword, no term vectors), field k and the boolean field are force-merged into one segment;
+// some words occur in exactly one of those documents (scorch's 1-hit postings encoding is
+// written by merges only, for a term with one posting of frequency 1 and no term vectors).
+// Then further batches are indexed and NOT force-merged.  The query is a conjunction / boolean
+// must list / filter clause over such a rare word and a common word, and the LAST batch has
+// several documents containing both, so that there are matches in the merged segment's
+// successors too.  scorch's background merger folds small segments together as soon as it gets
+// to them (and puts the result at the END of the snapshot's segment list), so with more than
+// one later batch neither the number nor the order of the segments at search time is
+// determined; most cases therefore have exactly one later batch, and the batches between the
+// force-merge and the last one leave the query's rare word alone (it keeps its single posting
+// whichever way they are merged), except in the "free" variant.
 func genMergeAppend(r *vrand.R) In {
 	common := []string{"a", "b", "c"}
+	vrand.Shuffle(r, common)
 	rare := []string{"ra", "rb", "rc", "rd"}[:r.Range(2, 4)]
-	var ops []Op
-	var cuts []int // batch boundaries (operation counts)
-	id := 0
+	vrand.Shuffle(r, rare)
+	qr, qc := rare[0], common[0] // the words of the query
+	free := r.Chance(1, 6)
 	words := func(ws ...string) []string { // distinct words: every term has frequency 1 in its document
 		var out []string
 		for _, w := range ws {
@@ -1252,9 +1260,23 @@ func genMergeAppend(r *vrand.R) In {
 		}
 		return out
 	}
-	// phase 1: 2-4 batches of 1-3 documents; every rare word in exactly one of them
+	finish := func(d *Doc, ws []string) *Doc {
+		ws = words(ws...)
+		if len(ws) == 0 {
+			ws = []string{"m"}
+		}
+		vrand.Shuffle(r, ws)
+		d.W, d.WArr = ws, len(ws) > 1 || r.Bool()
+		if r.Chance(1, 2) {
+			d.K, d.KArr = []string{vrand.Pick(r, common)}, r.Bool()
+		}
+		return d
+	}
+	var batches [][]Op
+	id := 0
+	// phase 1: 2-4 batches of 1-3 documents; every rare word in exactly one document
+	var sizes1 []int
 	n1 := 0
-	sizes1 := []int{}
 	for b := r.Range(2, 4); b > 0; b-- {
 		n := r.Range(1, 3)
 		sizes1 = append(sizes1, n)
@@ -1267,123 +1289,121 @@ func genMergeAppend(r *vrand.R) In {
 	}
 	trueDoc := r.Intn(n1 + 1) // the one phase-1 document with b = true (n1: none)
 	for _, n := range sizes1 {
+		var ops []Op
 		for i := 0; i < n; i++ {
 			d := &Doc{}
 			ws := append([]string{}, home[id]...)
-			if r.Chance(4, 5) {
+			if r.Chance(3, 4) {
+				ws = append(ws, qc)
+			}
+			if r.Chance(1, 3) {
 				ws = append(ws, vrand.Pick(r, common))
-			}
-			if r.Chance(1, 4) {
-				ws = append(ws, vrand.Pick(r, common))
-			}
-			ws = words(ws...)
-			if len(ws) == 0 {
-				ws = []string{"m"}
-			}
-			d.W, d.WArr = ws, len(ws) > 1 || r.Bool()
-			if r.Chance(1, 2) {
-				d.K, d.KArr = []string{vrand.Pick(r, common)}, r.Bool()
 			}
 			if id == trueDoc {
 				d.B = []bool{true}
 			} else if r.Chance(1, 2) {
 				d.B = []bool{false}
 			}
-			ops = append(ops, Op{ID: id, Doc: d})
+			ops = append(ops, Op{ID: id, Doc: finish(d, ws)})
 			id++
 		}
-		cuts = append(cuts, len(ops))
+		batches = append(batches, ops)
 	}
-	mergeAfter := len(cuts)
-	// phase 2: 1-3 batches of 2-5 documents in which the rare words are frequent
-	hot := rare[:r.Range(1, len(rare))]
-	for b := r.Range(1, 3); b > 0; b-- {
+	mergeAfter := len(batches)
+	// phase 2: 0-2 batches of 2-4 documents (mostly none: the snapshot is then the merged segment
+	// followed by one fresh segment), then the last batch of 3-6 documents
+	for b := vrand.Pick(r, []int{0, 0, 0, 1, 2}); b >= 0; b-- {
+		last := b == 0
+		var ops []Op
 		touched := map[int]bool{}
-		for n := r.Range(2, 5); n > 0; n-- {
+		n := r.Range(2, 4)
+		if last {
+			n = r.Range(3, 6)
+		}
+		both := 0
+		if last {
+			both = r.Range(2, 3) // documents of the last batch holding both query words
+		}
+		for i := 0; i < n; i++ {
 			d := &Doc{}
 			var ws []string
-			if r.Chance(3, 4) {
-				ws = append(ws, vrand.Pick(r, hot))
+			switch {
+			case i < both:
+				ws = append(ws, qr, qc)
+			case last || free:
+				if r.Chance(1, 2) {
+					ws = append(ws, qr)
+				}
+				if r.Chance(1, 2) {
+					ws = append(ws, qc)
+				}
+			default:
+				if r.Chance(2, 3) {
+					ws = append(ws, qc)
+				}
 			}
-			if r.Chance(1, 5) {
-				ws = append(ws, vrand.Pick(r, rare))
-			}
-			if r.Chance(4, 5) {
-				ws = append(ws, vrand.Pick(r, common))
+			if len(rare) > 1 && r.Chance(1, 4) {
+				ws = append(ws, vrand.Pick(r, rare[1:]))
 			}
 			if r.Chance(1, 3) {
 				ws = append(ws, vrand.Pick(r, common))
-			}
-			ws = words(ws...)
-			if len(ws) == 0 {
-				ws = []string{"m"}
-			}
-			d.W, d.WArr = ws, len(ws) > 1 || r.Bool()
-			if r.Chance(1, 2) {
-				d.K, d.KArr = []string{vrand.Pick(r, common)}, r.Bool()
 			}
 			if r.Chance(2, 3) {
 				d.B = []bool{r.Chance(2, 3)}
 			}
 			target := id
-			if r.Chance(1, 8) { // re-index a document of the merged segment
+			if r.Chance(1, 10) { // re-index a document of the merged segment
 				target = r.Intn(n1)
 			}
 			if touched[target] {
-				continue
+				target = id
 			}
 			touched[target] = true
 			if target == id {
 				id++
 			}
-			ops = append(ops, Op{ID: target, Doc: d})
+			ops = append(ops, Op{ID: target, Doc: finish(d, ws)})
 		}
 		if r.Chance(1, 6) {
-			if t := r.Intn(n1); !touched[t] {
+			if t := r.Intn(id); !touched[t] {
 				ops = append(ops, Op{Del: true, ID: t})
 			}
 		}
-		cuts = append(cuts, len(ops))
-	}
-	var batches [][]Op
-	prev := 0
-	for _, c := range cuts {
-		if c > prev {
-			batches = append(batches, ops[prev:c])
-		}
-		prev = c
+		vrand.Shuffle(r, ops)
+		batches = append(batches, ops)
 	}
 
 	wt := func(t string) *QN { return &QN{K: "term", F: "w", T: t} }
-	rt := wt(vrand.Pick(r, hot))
-	ct := wt(vrand.Pick(r, common))
 	var third *QN
-	switch r.Intn(3) {
+	switch r.Intn(4) {
 	case 0:
-		third = &QN{K: "bool", F: "b", V: true}
+		third = &QN{K: "bool", F: "b", V: r.Chance(2, 3)}
 	case 1:
 		third = &QN{K: "term", F: "k", T: vrand.Pick(r, common)}
+	case 2:
+		third = wt(rare[len(rare)-1])
 	default:
-		third = wt(vrand.Pick(r, common))
+		third = wt(common[1])
 	}
-	pair := []*QN{rt, ct}
+	pair := []*QN{wt(qr), wt(qc)}
 	if r.Bool() {
-		pair = []*QN{ct, rt}
-	}
-	if r.Chance(1, 5) {
-		pair[1] = &QN{K: "bool", F: "b", V: true}
+		pair[0], pair[1] = pair[1], pair[0]
 	}
 	cj := &QN{K: "conj", Kids: pair}
 	var q *QN
-	shape := vrand.Pick(r, []string{"conj", "conj", "conj3", "filter-conj", "filter-conj", "must-list", "must+filter",
-		"filter-conj+mustnot", "disj-of-conj", "must-conj+should", "conj-nested"})
+	shape := vrand.Pick(r, []string{"conj", "conj", "conj", "conj3", "filter-conj", "filter-conj", "must-list", "must+filter",
+		"filter-conj+mustnot", "disj-of-conj", "must-conj+should", "conj-nested", "mustnot-conj"})
 	switch shape {
 	case "conj":
 		q = cj
 	case "conj3":
 		q = &QN{K: "conj", Kids: append(append([]*QN{}, pair...), third)}
+		vrand.Shuffle(r, q.Kids)
 	case "filter-conj":
 		q = &QN{K: "boolean", HasMust: true, Must: []*QN{{K: "all"}}, Filter: cj}
+		if r.Chance(1, 3) {
+			q = &QN{K: "boolean", Filter: cj}
+		}
 	case "must-list":
 		q = &QN{K: "boolean", HasMust: true, Must: pair}
 	case "must+filter":
@@ -1394,11 +1414,17 @@ func genMergeAppend(r *vrand.R) In {
 		q = &QN{K: "disj", Kids: []*QN{cj, wt("m")}}
 	case "must-conj+should":
 		q = &QN{K: "boolean", HasMust: true, Must: []*QN{cj}, HasShould: true, Should: []*QN{third}, Min2: 0}
-	default:
+	case "conj-nested":
 		q = &QN{K: "conj", Kids: []*QN{cj, third}}
+	default: // every document with the field, except the conjunction's
+		q = &QN{K: "boolean", HasMust: true, Must: []*QN{{K: "prefix", F: "w", T: ""}}, HasMustNot: true, MustNot: []*QN{cj}}
+	}
+	variant := "directed"
+	if free {
+		variant = "free"
 	}
 	return In{Kind: "mergeappend", Engine: "scorch-disk", Batches: batches, MergeAfter: mergeAfter, Q: q,
-		Tags: []string{"mergeappend:" + shape}}
+		Tags: []string{"mergeappend:" + shape, "mergeappend-variant:" + variant}}
 }
 
 // enumerate: all trees of depth <= 2 over the leaves term a, term b, match-all where a node has
@@ -1780,7 +1806,14 @@ func main() {
 		ExplainFn: "SemCorr.explain",
 		Rule: "random indexing histories (5-40 documents over a 6-10 word vocabulary; keyword and whitespace+lowercase text fields, " +
 			"array values, numeric/date/bool fields; batches with updates and deletes) on scorch in-memory, scorch on-disk and upsidedown; " +
-			"random query trees to depth 4 over the whole family that pass Validate(), plus small must+should(min>=1) and regexp cases, " +
+			"random query trees to depth 4 over the whole family that pass Validate(); single leaves of every kind; term-only compounds and " +
+			"single-posting terms in force-merged on-disk segments; directed stream 'wide disjunction under a sparse clause' (11-14 terms sharing a " +
+			"prefix spread over 14-24 documents in several segments, reached by prefix/wildcard/regexp/term-range/fuzzy/match-OR or an explicit " +
+			"11-14-way disjunction, used as must-not / should(min>=1) / filter / conjunct next to a clause matching 1-3 scattered documents; all " +
+			"three engine configurations); directed stream 'merged, then appended' (on-disk scorch: batches, ForceMerge, further unmerged batches; " +
+			"conjunctions / must lists / filter clauses over a word with one posting in the merged segment and a common word, with matches in the " +
+			"last batch); regression cases for three fixed defects (must+should(min>=1) over terms, regexp alternations on upsidedown, empty prefix " +
+			"on upsidedown); " +
 			"(thorough) every tree of depth <= 2 over 3 leaves; each searched under the 8 (score, locations, explain) combinations with Size 100; " +
 			"a case is non-trivial when the default-options search returns some but not all live documents",
 		ShardSize: shard,
